@@ -481,6 +481,15 @@ class Mailbox:
                     # there are no other commands running
                     #
                     return True
+                # A STORE that is still running may be about to mark messages
+                # `\Deleted`: whether there is something to expunge is only
+                # known once it is done.
+                #
+                if any(
+                    x.command == IMAPCommand.STORE
+                    for x in self.executing_tasks
+                ):
+                    return True
                 return False
 
             case IMAPCommand.COPY:
